@@ -10,11 +10,13 @@ mod util;
 mod toa;
 mod mock;
 mod ldro;
+mod frame;
 
 fn dispatch(op: &str, a: &[&str]) -> String {
     match op {
         "toa" | "toa_sweep" | "ldro_toa" | "delay_in_symbols" | "symbols_to_ms" => toa::run(op, a),
         "ldro" => ldro::run_op(a),
+        "build_data" | "build_jr" | "build_ja" | "parse_phy" | "parse_data" | "parse_jr" | "ja_decrypt" | "aes" | "cmac" => frame::run_op(op, a),
         _ => format!("UNKNOWN-OP {op}"),
     }
 }
